@@ -275,4 +275,24 @@ func checkC03(r *Run) {
 
 	// ------------------------------------------------------------------ R5
 	checkRunTxAnte(r, "C03-R5")
+
+	// ------------------------------------------------------------------ R6
+	checkMultisigVerify(r, "C03-R6")
+
+	// ------------------------------------------------------------------ R7
+	r.Rule("C03-R7", "required fee: FeeMultipliers.GetFee multiplies msg.GetFee() by the multiplier whose Key equals msg.Type() (the per-message-type table), else by Default", 3)
+	if f := r.fn("(x/auth/types.FeeMultipliers).GetFee"); f != nil {
+		for i, ret := range Returns(f) {
+			t := P.TermAt(ret.Results[0], ret).String()
+			gs := P.Guards(ret, 0)
+			if strings.Contains(t, ".Multiplier") {
+				ok := reMatch(`^\(types\.Int\)\.Mul\(types\.Msg\.GetFee\(param:msg\), types\.NewInt\(param:fm\.FeeMultis\[.*\]\.Multiplier\)\)$`, t)
+				r.Check(ok, "C03-R7", fmt.Sprintf("GetFee/matched-return#%d/value", i), P.InstrPos(ret), t, "matched fee is "+t)
+				okG, _ := HasAtom(gs, `^\(param:fm\.FeeMultis\[.*\]\.Key == types\.Msg\.Type\(param:msg\)\)$`)
+				r.Check(okG, "C03-R7", fmt.Sprintf("GetFee/matched-return#%d/keyed-by-msg-type", i), P.InstrPos(ret), "multiplier selected by Key == msg.Type()", "the per-message multiplier is selected under {"+strings.Join(atomStrings(gs), " ; ")+"} ; required Key == msg.Type()")
+			} else {
+				r.Check(t == "(types.Int).Mul(types.Msg.GetFee(param:msg), types.NewInt(param:fm.Default))", "C03-R7", fmt.Sprintf("GetFee/default-return#%d", i), P.InstrPos(ret), t, "default fee is "+t)
+			}
+		}
+	}
 }
